@@ -29,11 +29,9 @@ def firstFlatCol : Expr → Option (List String × String)
   | .bin _ a b => match firstFlatCol a with | some x => some x | none => firstFlatCol b
   | _ => none
 
-/-- in a VALUES bracket `get_children("literal", "expression")` sees literals and everything wrapped in `expression`
-    (a bare column too); function calls are separate `function` segments and are skipped by the enumeration -/
+/-- in a VALUES bracket `get_children("literal", "expression")` sees every value: literals, and everything else wrapped in
+    an `expression` segment (a bare column and a function call too) -/
 def isLitOrExprSeg : Expr → Bool
-  | .func .. => false
-  | .cast .. => false
   | .star _ => false
   | _ => true
 
